@@ -54,7 +54,7 @@ class Prop:
             "event log (operations, outcomes, eval calls)")
     probes = ["op_scalar", "op_array", "op_view_create", "op_on_view", "op_on_packed_view", "expect_indexerror_order",
               "expect_indexerror_finite", "expect_runtimeerror_cycle", "masked_result", "precached_read",
-              "dep_nested_eval", "dep_slice_eval", "dep_view_eval", "nested_list_index", "none_valued_read", "kept_view_created", "op_on_kept_view", "npint_index", "cycle_len1", "cycle_len2", "cycle_len3", "view_of_view", "wrong_length", "pop_cached", "pop_absent", "contains_true", "contains_false"]
+              "dep_nested_eval", "dep_slice_eval", "dep_view_eval", "nested_list_index", "none_valued_read", "kept_view_created", "op_on_kept_view", "npint_index", "cycle_len1", "cycle_len2", "cycle_len3", "view_of_view", "wrong_length", "bare_index", "pop_cached", "pop_absent", "contains_true", "contains_false"]
     components_real = ["pymablock.series.BlockSeries (__getitem__, views, pop, __contains__, _check_finite, _check_number_perturbations)"]
     components_stub = ["element eval callbacks (simulator-owned table with dependency edges)", "series names (token_hex counter)"]
     assumptions = ["orders < 5, at most 4 finite and 2 infinite dimensions (5 in total), sizes 1-3",
@@ -119,6 +119,8 @@ class Prop:
             if r.random() < 0.12:
                 item = [({"npi": c} if isinstance(c, int) and r.random() < 0.6 else c) for c in item]
             ops.append(["idx", list(tgt), item, len(ops)])
+            if len(item) == 1 and r.random() < 0.5:
+                ops[-1].append("bare")  # the single index component is given as it is, not wrapped in a tuple: S[[0, 2]], S[1:], S[3]
             if make_view and nviews < 6:
                 try:
                     vshape = list(np.empty(shape)[_item_to_py(item)].shape)
@@ -406,7 +408,8 @@ class Prop:
                     all_series.append(kept[key])
                 op = ["idx", ("k",) + key, korders, -1]
                 bump("op_on_kept_view")
-            _, tgt, item_spec, label = op
+            _, tgt, item_spec, label = op[:4]
+            bare = len(op) > 4 and op[4] == "bare"
             tgt = tuple(tgt)
             if tgt not in targets:
                 continue
@@ -453,7 +456,11 @@ class Prop:
                             expect = ("value", sel)
             # ---------------- real call
             try:
-                res = series[item]
+                if bare and len(item) == 1:
+                    bump("bare_index")
+                    res = series[item[0]]
+                else:
+                    res = series[item]
                 got = ("ok", res)
             except IndexError as e:
                 got = ("IndexError", e)
